@@ -4,7 +4,7 @@
 (* Two families of behaviours leave the start state:                         *)
 (*  "single": one registration of every pattern of the big pool (all         *)
 (*            patterns of up to BigLen elements over 2 literal words and the *)
-(*            7 field kinds, named or anonymous) under every matcher kind    *)
+(*            9 field kinds, named or anonymous) under every matcher kind    *)
 (*            that can express it -- the "for all patterns / texts /         *)
 (*            matchers" part of the quantifier;                              *)
 (*  "hist":   registration histories over the small pool (6 patterns with    *)
@@ -45,22 +45,27 @@ PosName == << <<"x">>, <<"y">>, <<"z">>, <<"u">> >>
 LookTypes == <<"given", "when", "step">>
 
 \* representatives of the token classes used to instantiate a field (variant 1 and 2)
-Choice(fk, v) ==
+Choice(fk, v0) ==
+   LET v == IF fk = "falsy" THEN v0 ELSE 2 - (v0 % 2) IN
    CASE fk = "any"      -> IF v = 1 THEN <<Home>> ELSE <<Far, Away>>
      [] fk = "int"      -> IF v = 1 THEN << <<"7">> >> ELSE << <<"-","1","2">> >>
      [] fk = "word"     -> IF v = 1 THEN <<Red>> ELSE << <<"G","o","_","2">> >>
      [] fk = "float"    -> IF v = 1 THEN << <<"1",".","5">> >> ELSE << <<".","2","5">> >>
      [] fk = "custom"   -> IF v = 1 THEN <<Blue>> ELSE <<Red>>
      [] fk = "many"     -> IF v = 1 THEN << <<"r","e","d",",","b","l","u","e">> >> ELSE <<Green>>
-     [] OTHER           -> IF v = 1 THEN <<Red>> ELSE <<>>          \* optional: present / absent
+     [] fk = "falsy"    -> << <<TNone, TZero, TBlank, TNo, TNil>>[v] >>
+     [] OTHER           -> IF v = 1 THEN <<Red>> ELSE <<>>          \* optional, many0: present / absent
 Inst(p, v) == Flat([i \in DOMAIN p |-> IF p[i].k = "lit" THEN <<p[i].w>> ELSE Choice(p[i].k, v)])
 FirstLit(p) == IF \E i \in DOMAIN p : p[i].k = "lit" THEN CHOOSE i \in DOMAIN p : p[i].k = "lit" /\ \A j \in 1..(i - 1) : p[j].k # "lit" ELSE 0
 WithLit(p, w) == LET i == FirstLit(p) IN IF i = 0 THEN p ELSE [p EXCEPT ![i] = Lit(w)]
-\* step texts derived from a pattern: two exact instances, wrong case, changed literal, extra prefix, extra suffix
+\* step texts derived from a pattern: two exact instances (five if it has a field of the falsy type: one per
+\* converter result), wrong case, changed literal, extra prefix, extra suffix
 TextsOf(p) ==
    LET base == Inst(p, 1)
        i == FirstLit(p)
+       hasFalsy == \E n \in DOMAIN p : p[n].k = "falsy"
    IN <<base, Inst(p, 2)>>
+      \o (IF hasFalsy THEN <<Inst(p, 3), Inst(p, 4), Inst(p, 5)>> ELSE <<>>)
       \o (IF i = 0 THEN <<>> ELSE <<Inst(WithLit(p, Cap(p[i].w)), 1), Inst(WithLit(p, XX), 1)>>)
       \o << <<Oh>> \o base, base \o <<Oh>> >>
 
@@ -79,7 +84,7 @@ ElemChoices == {[k |-> "lit", w |-> w, nm |-> FALSE] : w \in {Go, Home}}
                \cup {[k |-> fk, w |-> <<>>, nm |-> b] : fk \in FieldKinds, b \in BOOLEAN}
 MkElem(c, i) == IF c.k = "lit" THEN Lit(c.w) ELSE Fld(c.k, IF c.nm THEN PosName[i] ELSE <<>>)
 PatsOfLen(n) == {[i \in 1..n |-> MkElem(f[i], i)] : f \in [1..n -> ElemChoices]}
-BigPool == {p \in UNION {PatsOfLen(n) : n \in 1..BigLen} : p[1].k # "optional"}
+BigPool == {p \in UNION {PatsOfLen(n) : n \in 1..BigLen} : p[1].k \notin FusedKinds}
 
 \* ---------------------------------------------------------------- the state space
 VARIABLES ph, b, st, hist, nreg, nfun, h,
@@ -210,12 +215,12 @@ ValidLens(p, toks, lens) ==
          LET from == 1 + SumTo(lens, i - 1)
          IN CASE p[i].k = "lit"      -> lens[i] = 1 /\ from <= Len(toks) /\ toks[from] = p[i].w
               [] p[i].k = "any"      -> lens[i] >= 1 /\ from + lens[i] - 1 <= Len(toks)
-              [] p[i].k = "optional" -> lens[i] = 0 \/ (lens[i] = 1 /\ from <= Len(toks) /\ InClass("optional", toks[from]))
+              [] p[i].k \in FusedKinds -> lens[i] = 0 \/ (lens[i] = 1 /\ from <= Len(toks) /\ InClass(p[i].k, toks[from]))
               [] OTHER               -> lens[i] = 1 /\ from <= Len(toks) /\ InClass(p[i].k, toks[from])
    /\ SumTo(lens, Len(p)) = Len(toks)
 \* order in which the matchers try: untyped fields shortest first, an optional field present first
 Earlier(p, la, lb) == \E i \in DOMAIN p : /\ \A j \in 1..(i - 1) : la[j] = lb[j]
-                                          /\ IF p[i].k = "optional" THEN la[i] > lb[i] ELSE la[i] < lb[i]
+                                          /\ IF p[i].k \in FusedKinds THEN la[i] > lb[i] ELSE la[i] < lb[i]
 LensOfMatch(p, m) == LET fs == {i \in DOMAIN p : p[i].k # "lit"}
                          idx(i) == Cardinality({j \in fs : j <= i})
                      IN [i \in DOMAIN p |-> IF p[i].k = "lit" THEN 1 ELSE m.spans[idx(i)].t - m.spans[idx(i)].f + 1]
